@@ -95,6 +95,24 @@ Print Assumptions c20_model_meets_spec.
 Theorem c20_model_meets_spec_lookup : forall p chain, spec_C20_lookup p chain (lookup p chain 0) = true.
 Proof. exact model_meets_spec_lookup. Qed.
 
+(* histories: whatever registrations and lookups happened before, a lookup answers from the registrations made so
+   far, child first — no earlier answer is remembered *)
+Theorem c20_lookup_history_is_spec : forall ops chain, run_lops chain ops = spec_run_lops chain ops.
+Proof. exact run_lops_eq_spec. Qed.
+Print Assumptions c20_lookup_history_is_spec.
+
+Theorem c20_lookup_sees_local_registration : forall chain l c key bk,
+  (l < length chain)%nat -> look_pred bk key c = true ->
+  (forall cs rest, skipn l chain = cs :: rest -> existsb (look_pred bk key) cs = false) ->
+  exists i, lookup (look_pred bk key) (skipn l (reg_at chain l c)) l = Some (l, i).
+Proof. exact lookup_sees_local_registration. Qed.
+Print Assumptions c20_lookup_sees_local_registration.
+
+Theorem c20_model_meets_spec_lookup_history : forall depth ops,
+  spec_C20_lops depth ops (run_lops (repeat [] depth) ops) = true.
+Proof. exact model_meets_spec_lops. Qed.
+Print Assumptions c20_model_meets_spec_lookup_history.
+
 (* ---- non-vacuity: concrete component lists meeting the hypotheses ---- *)
 Definition cR := mkComp 1 0 true false false false.   (* runnable *)
 Definition cP := mkComp 2 0 false false false false.  (* plain *)
@@ -120,3 +138,9 @@ Proof. vm_compute. auto. Qed.
 Example c20_nonvacuous_lookup :
   lookup (by_name 2) [[cR]; [cIF; cP]; [cP]] 0 = Some (1, 1).
 Proof. vm_compute. auto. Qed.
+
+(* child looks X up (gets the parent's), registers its own X, looks X up again (gets its own) *)
+Example c20_nonvacuous_lookup_history :
+  run_lops [[]; []] [LReg 1 cP; LLook 0 false 2; LReg 0 (mkComp 2 0 true false false false); LLook 0 false 2; LLook 1 false 2]
+  = [Some (1, 0); Some (0, 0); Some (1, 0)]%nat.
+Proof. vm_compute. reflexivity. Qed.
